@@ -41,4 +41,6 @@ VARIANTS = [
     dict(name='benign-reader-filter-nested', expect='silent', edits=[
         dict(file='vermouth/rcsu/contact_map.py', old='                if tokens[11] == "1" or (tokens[11] == "0" and tokens[14] == "1"):\n                    # this is a OV or rCSU contact we take it\n                    contacts.append((int(tokens[5]), tokens[4], int(tokens[9]), tokens[8]))',
              new='                take = tokens[11] == "1"\n                if not take and tokens[11] == "0":\n                    take = tokens[14] == "1"\n                if take:\n                    contacts.append((int(tokens[5]), tokens[4], int(tokens[9]), tokens[8]))')]),
+    dict(name='moltype-kept-when-already-set (seed C18_j)', expect='fire', key='STORE-overwrite|vermouth/rcsu/go_pipeline.py|GoProcessorPipeline.prepare_run', edits=[
+        dict(file='vermouth/rcsu/go_pipeline.py', old="        molecule.meta['moltype'] = moltype", new="        molecule.meta.setdefault('moltype', moltype)")]),
 ]
